@@ -25,6 +25,15 @@ impl CancelIo for CancelIoImpl {
     unsafe fn cancel(&self) -> Option<std::io::Result<()>> {
         if let Some(e) = self.0.take() {
             if let Some(co) = e.co.take() {
+                // we own the coroutine now, so nobody else would disarm the io timer
+                // that the blocked io armed, and the stale timer would later time out
+                // whatever coroutine is blocked on this io then. the timer is removed
+                // by the selector thread that owns it before the coroutine runs again
+                #[cfg(feature = "io_timeout")]
+                let co = match e.del_timer(co) {
+                    Some(co) => co,
+                    None => return Some(Ok(())), // scheduled by the selector thread
+                };
                 get_scheduler().schedule(co);
                 return Some(Ok(()));
             }
